@@ -57,6 +57,8 @@ class OggSpeexInfo(StreamInfo):
         if not page.first:
             raise OggSpeexHeaderError(
                 "page has ID header, but doesn't start a stream")
+        if len(page.packets[0]) < 56:
+            raise OggSpeexHeaderError("truncated ID header")
         self.sample_rate = cdata.uint_le(page.packets[0][36:40])
         if self.sample_rate == 0:
             raise OggSpeexHeaderError("sample rate can't be zero")
